@@ -19,7 +19,7 @@ PROP = 'C08'
 RULES = [
     Rule('C08.R1', 'seek entry point screens negative targets, silences notes first, stores the remaining wait and clears the carry', 5),
     Rule('C08.R2', 'the replay skips note-on events only', 2),
-    Rule('C08.R3', 'every return of the sequencer seek restores the loop-enabled flag', 2),
+    Rule('C08.R3', 'every return of the sequencer seek restores the loop-enabled flag', 1),
     Rule('C08.R4', 'targets beyond the end rewind and return 0; replay starts from the rewound position', 3),
     Rule('C08.R5', 'the loop is treated as passed only for targets at or beyond the loop end', 1),
     Rule('C08.R6', 'the state reset that precedes the replay restores every channel field a channel event can change', 20),
@@ -44,15 +44,16 @@ def analyse(facts, tier):
     E = facts.enums
     sec = ps.params[1]['id']
     order = []
-    for b, j, st in ps.cfg.stmts():
-        for x in calls_in(st['s']):
-            sn = short(callee_name(x))
-            if sn in ('realTime_panic', 'seek'):
-                order.append((sn, b, j, st))
-        for x in walk(st['s']):
+    for b, j, st, s_, owner, bind in with_helpers(facts, ps):
+        if owner is ps:
+            for x in calls_in(s_):
+                sn = short(callee_name(x))
+                if sn in ('realTime_panic', 'seek'):
+                    order.append((sn, b, j, st))
+        for x in walk(s_):
             ap = assign_parts(x)
             if ap and strip(ap[0]).get('k') == 'MemberExpr' and short(strip(ap[0])['n']) in ('delay', 'carry'):
-                order.append(('store ' + short(strip(ap[0])['n']), b, j, st, ap[1]))
+                order.append(('store ' + short(strip(ap[0])['n']), b, j, st, subst(ap[1], bind)))     # also through a helper that receives the value
     names = [o[0] for o in order]
     # negative screen dominates everything
     eff = [o for o in order]
@@ -86,43 +87,57 @@ def analyse(facts, tier):
         for x in walk(ex):
             if x.get('k') == 'DeclRefExpr' and x.get('id') == isk:
                 uses.append((b, ex, loc))
+    # the flag is only ever tested (never stored, passed on or computed with) ...
+    in_conds = 0
+    def count_conds(t):
+        nonlocal in_conds
+        if isinstance(t, dict):
+            if t.get('k') in ('IfStmt', 'WhileStmt', 'ForStmt', 'DoStmt') and t.get('cond') is not None:
+                in_conds += sum(1 for y in walk(t['cond']) if y.get('k') == 'DeclRefExpr' and y.get('id') == isk)
+            for k2 in ('body', 'then', 'else', 'sub', 'init'):
+                v = t.get(k2)
+                if isinstance(v, (dict, list)):
+                    count_conds(v)
+        elif isinstance(t, list):
+            for y in t:
+                count_conds(y)
+    count_conds(pe.tree)
+    total_refs = sum(1 for y in walk(pe.tree) if isinstance(y, dict) and y.get('k') == 'DeclRefExpr' and y.get('id') == isk)
+    only = total_refs == in_conds and in_conds >= 1
+    # ... and what it decides is exactly "a note-on is skipped while seeking": whatever the spelling (one condition, nested ifs), a
+    # statement that runs only when the flag is set is the `continue` of a note-on event, nothing runs only when it is clear, and the
+    # statements behind the skip carry at most the negation of (flag && note-on)
+    def about_flag(f):
+        body = [f[1]] if f[0] == 'truth' else ([f[2], f[3]] if f[0] == 'cmp' else [])
+        return any(isinstance(y, dict) and y.get('id') == isk for y in walk(body))
+    def is_noteon(f, neg=False):
+        return f[0] == 'cmp' and f[1] == ('!=' if neg else '==') and const_of(f[3]) == E.get('T_NOTEON') and mentions(f[2], member_named('type'))
     okc = True
     seen = 0
-    for bid, blk in pe.cfg.blocks.items():
-        c = blk.get('cond')
-        if c is not None and strip(c).get('id') == isk:
-            seen += 1
-            # the true edge must lead to the test `evt.type == T_NOTEON`, whose true edge continues
-            t = blk['succ'][0]
-            tb = pe.cfg.blocks.get(t, {})
-            c2 = tb.get('cond')
-            if not (c2 is not None and strip(c2).get('k') == 'BinaryOperator' and strip(c2)['op'] == '==' and const_of(strip(c2)['r']) == E.get('T_NOTEON') and mentions(c2, member_named('type'))):
-                okc = False
-    only = len({u[0] for u in uses}) == seen
-    # structured view: every statement whose condition mentions the flag is `if(isSeek && type == T_NOTEON) continue;`
-    ifs = []
-    def rec(t):
-        if isinstance(t, dict):
-            if t.get('k') in ('IfStmt', 'WhileStmt', 'ForStmt', 'DoStmt') and t.get('cond') is not None and mentions(t['cond'], lambda y: y.get('id') == isk):
-                ifs.append(t)
-            for k2 in ('body', 'then', 'else', 'sub'):
-                v = t.get(k2)
-                if isinstance(v, list):
-                    for y in v:
-                        rec(y)
-                elif isinstance(v, dict):
-                    rec(v)
-    rec(pe.tree)
-    for t in ifs:
-        lits = literals(t['cond'], True)
-        shape = len(lits) == 2 and any(f[0] == 'truth' and f[2] and strip(f[1]).get('id') == isk for f in lits) and \
-            any(f[0] == 'cmp' and f[1] == '==' and const_of(f[3]) == E.get('T_NOTEON') and mentions(f[2], member_named('type')) for f in lits)
-        if not (t.get('k') == 'IfStmt' and shape and (t.get('then') or {}).get('k') == 'ContinueStmt' and t.get('else') is None):
-            okc = False
-    if not ifs:
-        okc = False
+    bad = None
+    guarded = [(node, g) for node, g in pe.jump_guards()] + [(None, g) for g in pe.tree_guards().values()]
+    for node, g in guarded:
+        fs = facts_of_guards(g)
+        for f in fs:
+            if f[0] == 'or':
+                if any(about_flag(l) for alt in f[1] for l in alt):
+                    alts = f[1]
+                    exact = len(alts) == 2 and all(len(a) == 1 for a in alts) and \
+                        any(a[0][0] == 'truth' and not a[0][2] and about_flag(a[0]) for a in alts) and any(is_noteon(a[0], neg=True) for a in alts)
+                    if not exact:
+                        okc, bad = False, fact_str(f)
+            elif about_flag(f):
+                if f[0] == 'truth' and f[2]:
+                    is_skip = node is not None and node.get('k') == 'ContinueStmt' and any(is_noteon(f2) for f2 in fs)
+                    if is_skip:
+                        seen += 1
+                    else:
+                        okc, bad = False, 'a statement other than the skip of a note-on runs only while seeking'
+                else:
+                    okc, bad = False, 'a statement runs only when not seeking (%s)' % fact_str(f)
     obls.append(Obl('C08.R2', pe.name, 'isSeek && type == T_NOTEON', pe.loc, 'discharged' if (okc and seen >= 1 and only) else 'finding',
-                    why='the seek flag is read %d time(s), always conjoined with the note-on test' % seen if (okc and seen >= 1 and only) else 'the seek flag gates something else than note-on events'))
+                    why='the seek flag is only tested, and the only thing it decides is the skip of note-on events (%d skip)' % seen if (okc and seen >= 1 and only) else
+                    'the seek flag gates something else than note-on events (%s)' % (bad or ('no skip of note-ons found' if seen < 1 else 'the flag is used outside conditions'))))
     # the skipped branch is a `continue` of the event loop, handleEvent follows otherwise
     he_after = any(short(callee_name(x)) == 'handleEvent' for b, j, st in pe.cfg.stmts() for x in calls_in(st['s']))
     obls.append(Obl('C08.R2', pe.name, 'all other events are handled during the replay', pe.loc, 'discharged' if he_after else 'finding', why='handleEvent is called for every event that is not skipped'))
@@ -342,10 +357,10 @@ def r1b_audio(facts):
             missing = []
             for fld in need:
                 okf = False
-                for b2, j2, st2 in fn.cfg.stmts():
+                for b2, j2, st2, s2, owner, bind in with_helpers(facts, fn):
                     if not ((b2 == b and j2 >= j) or fn.cfg.stmt_before((b, j), (b2, j2))):
                         continue
-                    for y in walk(st2['s']):
+                    for y in walk(s2):
                         ap = assign_parts(y)
                         if ap and strip(ap[0]).get('k') == 'MemberExpr' and short(strip(ap[0])['n']) == fld and 'Setup' in strip(ap[0])['n']:
                             okf = True
@@ -366,8 +381,8 @@ def r1b_audio(facts):
             continue
         nl += 1
         stored = set()
-        for b2, j2, st2 in fn.cfg.stmts():
-            for y in walk(st2['s']):
+        for b2, j2, st2, s2, owner, bind in with_helpers(facts, fn):
+            for y in walk(s2):
                 ap = assign_parts(y)
                 if ap and strip(ap[0]).get('k') == 'MemberExpr' and 'Setup' in strip(ap[0])['n']:
                     stored.add(short(strip(ap[0])['n']))
